@@ -618,7 +618,12 @@ func c11Structured(c *run.Ctx, idx uint64) {
 		if r.Chance(1, 8) {
 			cut = r.Range(1, 4)
 		}
-		b = gen.Stream(r, r.Range(1, 40), r.Chance(1, 8), cut)
+		n := r.Range(1, 40)
+		if r.Chance(1, 4000) {
+			n = r.Range(8000, 14000) // a listing of a stream beyond 64 KiB
+			c.Count("streams_beyond_64KiB", 1)
+		}
+		b = gen.Stream(r, n, r.Chance(1, 8) && n < 1000, cut)
 	}
 	c11Judge(c, b, "structured")
 }
